@@ -831,6 +831,12 @@ class Verifier(Engine):
             return self.max_by_key(args[0], kwargs["key"])
         if name in ("min", "max") and len(args) == 1 and not kwargs:
             return self.extremum(args[0], name)
+        if name in ("min", "max") and len(args) >= 2 and not kwargs and all(isinstance(a, V) and a.ty.kind in ("int", "bool") for a in args):
+            acc = self.coerce(args[0], T.INT).t
+            for a in args[1:]:
+                b = self.coerce(a, T.INT).t
+                acc = z3.If(b < acc, b, acc) if name == "min" else z3.If(b > acc, b, acc)
+            return V(T.INT, acc)
         if name == "open":
             return self.call_ext("open", None, args, kwargs)
         if name == "hash":
@@ -1559,6 +1565,9 @@ class Verifier(Engine):
             finally:
                 self.st.loc = saved
             return w
+        if name == "abort_pending":
+            # True on the paths on which the asynchronous abort (A-SIG) has been injected
+            return V(T.BOOL, z3.BoolVal(getattr(self, "abort_at", None) is not None))
         if name == "allocated":
             v = self.ev_v(a[0])
             return V(T.BOOL, z3.Select(self.alloc_map(), v.t))
